@@ -30,7 +30,7 @@ func realInstrs(f *ssa.Function) []ssa.Instruction {
 // C15
 
 func checkC15(p *Prog, r *Report) {
-	r.Rule("R15", "each of UInt64Get/UInt32Get/UInt64Put/UInt32Put is either (i) exactly one call of the matching encoding/binary.LittleEndian method (resolved through go/types; BigEndian/NativeEndian or a method of another width are violations) with the buffer parameter (optionally re-sliced to a prefix covering the frame) and the value parameter forwarded and the result returned, and nothing else; or (ii) an explicit byte-lane idiom whose lane map is i -> 8i for i < width/8, touches no index outside the frame, and touches the highest index of the frame before any store (refusal before partial write). Any other body is undecided and fails", 4)
+	r.Rule("R15", "each of UInt64Get/UInt32Get/UInt64Put/UInt32Put is either (i) exactly one call of the matching encoding/binary.LittleEndian method (resolved through go/types; BigEndian/NativeEndian or a method of another width are violations) with the buffer parameter itself (not a fixed-length re-slice, which is checked against the capacity instead of the length) and the value parameter forwarded and the result returned, and nothing else; or (ii) an explicit byte-lane idiom whose lane map is i -> 8i for i < width/8, touches no index outside the frame, and touches the highest index of the frame before any store (refusal before partial write). Any other body is undecided and fails", 4)
 	r.Assume = append(r.Assume, "documented contract of encoding/binary.LittleEndian (little-endian, touches exactly the first 8/4 bytes, panics on short buffers before writing)")
 	specs := []struct {
 		name   string
@@ -135,6 +135,8 @@ func delegationIdiom(f *ssa.Function, width int, put bool, method string) (bool,
 				if h, ok := constInt(x.High); !ok || h < frame {
 					return false, "buffer is re-sliced shorter than the frame"
 				}
+				// p[:k] is bounded by the capacity of p, not by its length
+				return false, "the buffer is re-sliced to a fixed length before it reaches the library: a slice expression is checked against the capacity, so a buffer shorter than the frame with spare capacity is no longer refused and bytes beyond its length are read or written"
 			}
 		default:
 			return false, "extra instruction " + in.String()
